@@ -99,7 +99,7 @@ def key_of(a, b):
 def run(ctx):
     rep = ctx.reporter(PROP, LEVEL)
     quick = ctx.tier == "quick"
-    n_base = int((1500 if quick else 30000) * ctx.scale)
+    n_base = int((3000 if quick else 40000) * ctx.scale)
     k_var = 5
     bases = []
     i = 0
